@@ -233,8 +233,8 @@ func (x *Exec) callContract(st *State, callee *ssa.Function, ct *Contract, args 
 	saveOldAlloc := fr.oldAlloc
 	fr.oldAlloc = oldAlloc
 	for _, e := range ct.Ensures {
-		if strings.HasPrefix(e.Label, "ok.") {
-			continue // an internal assertion about the callee's success return (mentions its locals)
+		if strings.HasPrefix(e.Label, "ok.") || strings.HasPrefix(e.Label, "err.") {
+			continue // an internal assertion about the callee's success / error returns (mentions its locals)
 		}
 		st.assume(ev.evalClause(e))
 	}
@@ -669,7 +669,7 @@ func (x *Exec) verify() (err error) {
 	x.run(st, fn.Blocks[0], 0, func(st *State, rs []Val) { x.checkPost(st, rs) })
 	if x.ct != nil {
 		for _, e := range x.ct.Ensures {
-			if strings.HasPrefix(e.Label, "ok.") && x.okEval[e.Label] == 0 {
+			if (strings.HasPrefix(e.Label, "ok.") || strings.HasPrefix(e.Label, "err.")) && x.okEval[e.Label] == 0 {
 				limitf("%s: clause @%s was never evaluated: the locals it names do not exist at any success return", x.key, e.Label)
 			}
 		}
@@ -718,6 +718,26 @@ func (x *Exec) checkPost(st *State, rs []Val) {
 				// definitional: the spec function names this function's result; justified by the determinism check
 				continue
 			}
+			if strings.HasPrefix(e.Label, "err.") {
+				// an assertion about error returns only (may mention locals): checked under the hypothesis that
+				// the returned error is non-nil, at every return where the names it mentions exist
+				var conds []string
+				for _, r := range res {
+					if r.S == "Err" && r.T != "ErrNil" {
+						conds = append(conds, fmt.Sprintf("(not (= %s ErrNil))", r.T))
+					}
+				}
+				if len(conds) == 0 {
+					continue
+				}
+				term, okc := x.tryClause(ev, e)
+				if !okc {
+					continue
+				}
+				x.okEval[e.Label]++
+				st.check(fmt.Sprintf("%s/post/%s", x.key, clauseName(e, i)), fmt.Sprintf("(=> (or %s false) %s)", strings.Join(conds, " "), term), "postcondition (error return)")
+				continue
+			}
 			if strings.HasPrefix(e.Label, "ok.") {
 				// an assertion about the success return only (may mention locals that exist only there)
 				success := true
@@ -750,7 +770,7 @@ func (x *Exec) checkPost(st *State, rs []Val) {
 func (x *Exec) tryClause(ev *Env, c Clause) (term string, ok bool) {
 	defer func() {
 		if r := recover(); r != nil {
-			if tl, isTL := r.(toolLimit); isTL && strings.Contains(tl.msg, "unknown name") {
+			if tl, isTL := r.(toolLimit); isTL && (strings.Contains(tl.msg, "unknown name") || strings.Contains(tl.msg, "was not entered on this path")) {
 				ok = false
 				return
 			}
